@@ -59,8 +59,10 @@ CLAIMED = {
              "compared per transaction (VM error, return data, gas used after refunds, logs) and per account (nonce, code, balance, "
              "storage). Theorems: over the reference semantics, RevertToSnapshot after ANY sequence of ordinary calls restores the "
              "transaction state exactly and never touches the persisted state or older snapshots (all call sequences, by induction); "
-             "over the model of Nibiru's journal, every entry's Revert is the exact inverse of the mutation that appended it (refund "
-             "add/sub, logs, balance, nonce, code, storage, self-destruct of a cached object); ApplyEvmMsg's EIP-3529 refund equals "
+             "over the model of Nibiru's journal, every entry's Revert is the exact inverse of the mutation that appended it, and — by "
+             "induction over ANY sequence of write calls on cached accounts — Snapshot … RevertToSnapshot succeeds and restores every "
+             "observable of the StateDB (balances, nonces, code hashes, self-destruct flags, current and committed value of every "
+             "slot, refund counter, log count, access list); ApplyEvmMsg's EIP-3529 refund equals "
              "go-ethereum's for all inputs and never exceeds a fifth of the gas used.",
         note="NOT proved: the simulation between the model of Nibiru's StateDB (lazy loading, origin caching, dirty counts) and the "
              "reference semantics for arbitrary call sequences — their observational equality is established by the correspondence "
@@ -259,7 +261,9 @@ CLAIMED = {
              "type, dirty counts, revisions, intermediate flush into the cache context, PrecompileCalled entry, SyncStateDBWithAccount, "
              "commit) validated against the real StateDB/keeper on >10^5 API calls per run. The full atomicity property is FALSE on the "
              "unchanged tree: two kernel-checked counterexample theorems (lost pre-frame write; stale balance of an account loaded after a "
-             "bank move) are replayed on the real code by the corpus and recorded as known findings. Proved positively: the "
+             "bank move) are replayed on the real code by the corpus and recorded as known findings. Proved positively: for frames WITHOUT a "
+             "precompile call, Snapshot / any sequence of writes on cached accounts / RevertToSnapshot restores every observable "
+             "(C04_frame_revert_restores_partial, induction over the sequence); the "
              "PrecompileCalled journal entry restores the multistore exactly, reverting any other entry leaves it untouched, and the "
              "StateDB balance equals the bank balance after SyncStateDBWithAccount. The reference-semantics oracle (copy-on-snapshot "
              "journaled world + journaled multistore) evaluates the property on every implementation trace and reports any violation "
